@@ -361,8 +361,9 @@ func isRejectingClause(info *types.Info, body []ast.Stmt) bool {
 	return true
 }
 
-// followWhole: when the clause passes the bound node itself (x or *x) to a module
-// function, the fields that function selects on the corresponding parameter count.
+// followWhole: when the clause passes the bound node (x, *x) or something selected from it
+// (x.Items) to a module function that is not itself a traversal over a sum, the fields that
+// function (and the non-traversal helpers it calls in turn) selects count for the clause.
 func (c *Ctx) followWhole(info *types.Info, cl *model.Clause, sw *model.TypeSwitch, impl *types.Named, into map[*types.Var]bool, depth int) {
 	if cl.BoundTo == nil {
 		return
@@ -373,25 +374,35 @@ func (c *Ctx) followWhole(info *types.Info, cl *model.Clause, sw *model.TypeSwit
 			if !ok {
 				return true
 			}
+			mentions := false
 			for _, a := range call.Args {
-				a = ast.Unparen(a)
-				if st, ok := a.(*ast.StarExpr); ok {
-					a = ast.Unparen(st.X)
-				}
-				if ue, ok := a.(*ast.UnaryExpr); ok && ue.Op == token.AND {
-					a = ast.Unparen(ue.X)
-				}
-				id, ok := a.(*ast.Ident)
-				if !ok || info.Uses[id] != cl.BoundTo {
-					continue
-				}
-				if callee := calleeOf(info, call); callee != nil {
-					c.collectFieldsOf(callee, impl, into, depth)
-				}
+				ast.Inspect(a, func(m ast.Node) bool {
+					if id, ok := m.(*ast.Ident); ok && info.Uses[id] == cl.BoundTo {
+						mentions = true
+					}
+					return !mentions
+				})
+			}
+			if !mentions {
+				return true
+			}
+			if callee := calleeOf(info, call); callee != nil && !c.isTraversal(callee, sw.Sum) {
+				c.collectFieldsOf(callee, sw.Sum, into, depth, map[*types.Func]bool{})
 			}
 			return true
 		})
 	}
+}
+
+// isTraversal: the function contains a type switch over the given sum (its clauses select the
+// fields of every node kind and are judged on their own).
+func (c *Ctx) isTraversal(fn *types.Func, sum *model.Sum) bool {
+	for _, sw := range c.Switches() {
+		if sw.Func == fn.Origin() && sw.Sum == sum {
+			return true
+		}
+	}
+	return false
 }
 
 func (c *Ctx) handsOn(info *types.Info, cl *model.Clause) bool {
@@ -439,10 +450,16 @@ func calleeOf(info *types.Info, call *ast.CallExpr) *types.Func {
 	return nil
 }
 
-// collectFieldsOf adds every field of impl selected in the body of fn (a module function).
-func (c *Ctx) collectFieldsOf(fn *types.Func, impl *types.Named, into map[*types.Var]bool, depth int) {
-	fd := c.P.Decl(fn.Origin())
-	if fd == nil || fd.Body == nil || depth <= 0 {
+// collectFieldsOf adds every field selected in the body of fn (a module function) and of the
+// non-traversal module functions it calls (bounded).
+func (c *Ctx) collectFieldsOf(fn *types.Func, sum *model.Sum, into map[*types.Var]bool, depth int, seen map[*types.Func]bool) {
+	fn = fn.Origin()
+	if seen[fn] || depth <= 0 {
+		return
+	}
+	seen[fn] = true
+	fd := c.P.Decl(fn)
+	if fd == nil || fd.Body == nil {
 		return
 	}
 	var info *types.Info
@@ -454,17 +471,19 @@ func (c *Ctx) collectFieldsOf(fn *types.Func, impl *types.Named, into map[*types
 	if info == nil {
 		return
 	}
-	st, _ := impl.Underlying().(*types.Struct)
-	own := map[*types.Var]bool{}
-	if st != nil {
-		for i := 0; i < st.NumFields(); i++ {
-			own[st.Field(i)] = true
-		}
-	}
 	sel := map[*types.Var]bool{}
 	fieldSelections(info, fd.Body, sel)
 	for v := range sel {
 		into[v] = true // includes item-struct fields reached through the node
 	}
-	_ = own
+	ast.Inspect(fd.Body, func(n ast.Node) bool {
+		call, ok := n.(*ast.CallExpr)
+		if !ok {
+			return true
+		}
+		if callee := calleeOf(info, call); callee != nil && callee.Pkg() == fn.Pkg() && !c.isTraversal(callee, sum) {
+			c.collectFieldsOf(callee, sum, into, depth-1, seen)
+		}
+		return true
+	})
 }
